@@ -122,8 +122,9 @@ ev_recv(int c, int i, int blocking)
 	int live = ctxs[c]->survey_id != 0 && env_now < deadline[c];
 	int have = !nni_lmq_empty(&ctxs[c]->recv_lmq);
 	kuaio_prepare(i, blocking);
-	if (blocking) {
-		/* any user timeout: infinite, default, or any positive duration */
+	if (blocking == 2) {
+		/* RT: any user timeout: infinite, default, or any positive duration
+		 * (last event of a skeleton: the timeout decides the aio's state) */
 		nng_duration t = ND(i32);
 		ASSUME(t == NNG_DURATION_INFINITE || t == NNG_DURATION_DEFAULT || (t >= 1 && t <= 100000000));
 		nni_aio_set_timeout(&uaio_at(i), t);
@@ -176,6 +177,14 @@ ev_response(int p, int k)
 	} else if (k == 5 || k == 6) {
 		id = prev_id[k - 5];
 		KNEED(id != 0 && id != cur_id[0] && id != cur_id[1]);
+		if (kstop)
+			return;
+	} else if (k == 2) {
+		/* a foreign id, concrete per query (a symbolic id makes the looked-up
+		 * context pointer symbolic and with it every list test: > 100 s); the
+		 * id map itself is checked for every key in C18 */
+		id = (cur_id[0] ? cur_id[0] : 0x80000000u) + 7u;
+		KNEED(id != cur_id[1]);
 		if (kstop)
 			return;
 	} else {
@@ -290,6 +299,7 @@ ev_close(void)
 #define A(p) if (!kstop) ev_attach(p);
 #define V(c, i) if (!kstop) ev_survey(c, i);
 #define R(c, i, b) if (!kstop) ev_recv(c, i, b);
+#define RT(c, i) if (!kstop) ev_recv(c, i, 2);
 #define Y(p, k) if (!kstop) ev_response(p, k);
 #define K(d) if (!kstop) ev_clock(d);
 #define E(i) if (!kstop) ev_expire(i);
